@@ -1,0 +1,24 @@
+//go:build verif
+
+package boxes
+
+import "golang.org/x/net/html"
+
+// VerifC07TableSpans builds a table cell (<td colspan rowspan>), a column (<col span>) and an
+// empty column group (<colgroup span>) whose element carries the attribute value `attr`
+// (no attribute at all when present is false) and returns the spans the table code will use.
+func VerifC07TableSpans(attr string, present bool) (colspan, rowspan, colSpan, groupSpan int) {
+	mk := func(tag string, keys ...string) *html.Node {
+		n := &html.Node{Type: html.ElementNode, Data: tag}
+		if present {
+			for _, k := range keys {
+				n.Attr = append(n.Attr, html.Attribute{Key: k, Val: attr})
+			}
+		}
+		return n
+	}
+	cell := NewTableCellBox(nil, mk("td", "colspan", "rowspan"), "", nil)
+	col := NewTableColumnBox(nil, mk("col", "span"), "", nil)
+	grp := NewTableColumnGroupBox(nil, mk("colgroup", "span"), "", nil)
+	return cell.Colspan, cell.Rowspan, col.span(), grp.span()
+}
